@@ -19,14 +19,18 @@ def main():
         caught = runs.get("caught_by")
         what = (m.get("summary") or "").replace("\n", " ").replace("|", "/")
         what = re.sub(r"\s+", " ", what)[:150]
-        rows.append((mid, m["property"], "not yet run" if caught is None else (", ".join(caught) or "none"),
-                     "yes" if caught and m["property"] in caught else ("—" if caught is None else "NO"), what))
+        own = m.get("own_check_run")
+        if own is not None:
+            own_txt = "yes" if own.get("check_exit_code") == 1 else "NO"
+        else:
+            own_txt = "yes" if caught and m["property"] in caught else ("—" if caught is None else "NO")
+        rows.append((mid, m["property"], "not yet run" if caught is None else (", ".join(caught) or "none"), own_txt, what))
     lines = ["| change | breaks | checks that report a violation (quick tier, seed 0) | own check | what it is |", "|---|---|---|---|---|"]
     for r in rows:
         lines.append("| %s | %s | %s | %s | %s |" % r)
     n = len(rows)
     own = sum(1 for r in rows if r[3] == "yes")
-    anyc = sum(1 for r in rows if r[2] not in ("none", "not yet run"))
+    anyc = sum(1 for r in rows if r[2] not in ("none", "not yet run") or r[3] == "yes")
     lines.append("")
     lines.append("%d seeded changes; %d caught by the check of the property they were written against, %d by at least one check." % (n, own, anyc))
     p = os.path.join(V, "DESIGN.md")
